@@ -16,7 +16,7 @@ for d in sorted(os.listdir(V)):
     rows.append((d, m.get('breaks_property', ''), m.get('change', m.get('origin', ''))[:90], needs[:110], det, miss, m.get('remark', '')))
 with open(f'{V}/INDEX.md', 'w') as f:
     f.write('# Seeded property-breaking changes\n\n'
-            'S01-S19: reverse patches of the repairs made to /repo (the pinned tree\'s own defects).  S20+: changes written by independent '
+            'S01-S19 and S100-S113: reverse patches of the repairs made to /repo (the pinned tree\'s own defects).  S20+: changes written by independent '
             'sub-agents that were given only the property text and a scratch worktree; each was confirmed here (pinned tests pass with the '
             'change, demo fails with it and passes without) before the checks were run against it.\n\n'
             '| id | property | change | needs | caught by | run but silent | remark |\n|---|---|---|---|---|---|---|\n')
